@@ -154,3 +154,12 @@ CHECKS["C20"] = (
     "DESIGN.md#c20",
 )
 NA.pop("C20", None)
+
+CHECKS["C13"] = (
+    "other",
+    "static analysis: symbolic evaluation of the run-splitting routines over one run with a symbolic piece count (pattern x count + tail sequence domain, cases r = 0 and r > 0); writer/reader agreement of the binvox header; canonical-form checks of the volume formula and index <-> point maps",
+    "Decides four clauses only: (N1) splitting a run of length q*m + r for a count width with maximum m yields pieces that sum to the run, none above m, one value per piece (rle) / an odd number of pieces (brle), for r = 0 and r > 0; (N2) the binvox header is read back line for line with the arity and type it was written with and both sides use one-byte counts; (V1) volume = filled_count * det(transform[:3,:3]); (V2) indices_to_points is the grid transform, points_to_indices rounds the inverse transform of the same, hash-keyed matrix. That every encoding answers every read like the dense array, and that whole-sequence run-length conversions are lossless, are values of vectorised numpy code and are NOT decided.",
+    "Trusted: np.repeat / np.cumsum / fancy assignment act run by run (one run is modelled); transform_points == M.p (C04-R7 / C19-T7); canonicalisation in sa/provenance.py; exact canonical forms of the one-line formulas (a rewrite is reported, not silently accepted).",
+    "DESIGN.md#6-build-report",
+)
+NA.pop("C13", None)
